@@ -1,3 +1,4 @@
+import copy
 import logging
 import numpy as np
 import os
@@ -383,7 +384,10 @@ class Preloads:
                 np.max(abs(inversion_0.curvature_matrix - inversion_1.curvature_matrix))
                 < 1e-8
             ):
-                self.curvature_matrix = inversion_0.curvature_matrix
+                # Copy: `curvature_reg_matrix` adds the regularization matrix IN PLACE into the cached
+                # `curvature_matrix` of `inversion_0` when it has a single regularization, which would
+                # otherwise overwrite this preload if it is evaluated after the preload is set.
+                self.curvature_matrix = copy.copy(inversion_0.curvature_matrix)
 
                 logger.info(
                     "PRELOADS - Inversion Curvature Matrix preloaded for this model-fit."
